@@ -24,12 +24,15 @@ TAlign(op) == IF op.k = "ab" THEN 1 ELSE op.a
 Extra(op) == IF op.k = "at" THEN 0 ELSE op.n
 ZeroReq(op) == TSize(op) = 0 /\ Extra(op) = 0
 \* bytes the fast path takes from the cursor
-NeedFresh(op, cur) == IF TSize(op) = 0 THEN Extra(op) ELSE Align(cur, TAlign(op)) + TSize(op) + Extra(op) - cur
+Plain(op) == op.k = "ab" \/ (TSize(op) = 0 /\ (Extra(op) = 0 \/ TAlign(op) = 1))     \* nothing to place
+NeedFresh(op, cur) == IF Plain(op) THEN Extra(op) ELSE Align(cur, TAlign(op)) + TSize(op) + Extra(op) - cur
 \* the most a correct implementation may ask a segment for
-NeedMax(op) == IF TSize(op) = 0 THEN Extra(op) ELSE TSize(op) + TAlign(op) - 1 + Extra(op)
+NeedMax(op) == IF Plain(op) THEN Extra(op) ELSE TSize(op) + TAlign(op) - 1 + Extra(op)
 
+\* (a zero-sized T still has an alignment: alloc_aligned_bytes::<[u64; 0]>(n) is "n bytes aligned to 8"; only a request of
+\* size zero altogether takes nothing and therefore need not be placed)
 ShapeOk(op, r) ==
-  IF TSize(op) = 0 THEN r.ps = Extra(op)
+  IF Plain(op) THEN r.ps = Extra(op)
   ELSE IF op.k = "at" THEN r.ps = op.s /\ r.po % op.a = 0
   ELSE r.po % op.a = 0 /\ r.ps >= op.s + op.n
 
